@@ -157,13 +157,30 @@ func (root *Root) regInput(sample interface{}, input *Input) error {
 	return nil
 }
 
+// sameGoType returns true if the two types are the same Go type once any
+// pointers are followed. An object type is bound to the Go type of the first
+// value seen for it, or registered for it, which can be a struct or a pointer
+// to it. Values of either form are values of the object type.
+func sameGoType(a, b reflect.Type) bool {
+	if a == nil || b == nil {
+		return false
+	}
+	for a.Kind() == reflect.Ptr {
+		a = a.Elem()
+	}
+	for b.Kind() == reflect.Ptr {
+		b = b.Elem()
+	}
+	return a == b
+}
+
 func (root *Root) getReflectType(meta reflect.Type) (obj Type) {
 	verifYield("getReflectType")
 	for _, t := range root.types.list {
 		o, _ := t.(*Object)
 		if o != nil {
 			o.mu.Lock()
-			if o.meta == meta {
+			if sameGoType(o.meta, meta) {
 				obj = o
 				o.mu.Unlock()
 				break
